@@ -44,9 +44,9 @@ Proof.
   rewrite all_ok_app. now rewrite Ha, Hb.
 Qed.
 
-Lemma field_walk_builds sub fl ex ft m p f a :
+Lemma field_walk_builds onp sub fl ex ft m p f a :
   (forall n p' w, sub n p' = Some w -> builds_ok w) ->
-  field_walk sub fl ex ft m p f = Some a -> builds_ok a.
+  field_walk onp sub fl ex ft m p f = Some a -> builds_ok a.
 Proof.
   intros Hsub. unfold field_walk.
   set (own := {| w_checks := []; w_leaves := []; w_present := []; w_tags := shape_tags f ++ example_tags fl ex ft m f |}).
@@ -61,6 +61,7 @@ Proof.
                    unfold all_ok; cbn [forallb w_checks ck_ok]; unfold assign_check, go_field_type; rewrite Ec, Ek;
                    unfold in_real_oneof in Hs; destruct (f_oneof f); cbn in *; try discriminate; reflexivity
                  | intros Hs; reflexivity ]).
+    destruct (onp tn); [intros H; inversion H; intros _; reflexivity|].
     destruct (sub tn (join_path p (f_name f))) as [w|] eqn:Es; [|discriminate].
     intros H. inversion H. subst. clear H. apply Hown. intros Hs.
     apply builds_ok_app; [|destruct (in_real_oneof f); [intros _; reflexivity|now apply (Hsub _ _ _ Es)]].
@@ -73,6 +74,7 @@ Proof.
            first [ apply Hown; intros Hs; exfalso; unfold shape_tags in Hs; rewrite Ec, Ek in Hs; cbn in Hs;
                    destruct (in_real_oneof f); cbn in Hs; discriminate
                  | intros Hs; reflexivity ]).
+    destruct (onp tn); [intros H; inversion H; intros _; reflexivity|].
     destruct (sub tn (join_path p (f_name f))) as [w|] eqn:Es; [|discriminate].
     intros H. inversion H. subst. clear H. apply Hown. intros Hs.
     apply builds_ok_app; [|destruct (in_real_oneof f); [intros _; reflexivity|now apply (Hsub _ _ _ Es)]].
@@ -89,6 +91,7 @@ Proof.
       try (intros H; inversion H; subst; clear H; apply Hown; intros Hs; intros _;
            unfold shape_tags in Hs; rewrite Ec, Ek in Hs; apply tag_if_nil in Hs; apply negb_false_iff in Hs;
            unfold all_ok; cbn [forallb w_checks ck_ok mk]; rewrite andb_true_r; exact Hs).
+    destruct (onp tn); [intros H; inversion H; intros _; reflexivity|].
     destruct (sub tn _) as [w|] eqn:Es; [|discriminate].
     intros H. inversion H. subst. clear H. apply Hown. intros Hs. apply builds_ok_app; [|now apply (Hsub _ _ _ Es)].
     intros _. reflexivity.
@@ -97,26 +100,26 @@ Qed.
 Lemma mock_walk_preserves (P : walk -> Prop) sc fl ex ft :
   P w_empty -> (forall a b, P a -> P b -> P (w_app a b)) ->
   (forall p, P (timestamp_walk p)) ->
-  (forall sub m p f a, (forall n p' w, sub n p' = Some w -> P w) -> field_walk sub fl ex ft m p f = Some a -> P a) ->
-  forall fuel m p w, mock_walk fuel sc fl ex ft m p = Some w -> P w.
+  (forall onp sub m p f a, (forall n p' w, sub n p' = Some w -> P w) -> field_walk onp sub fl ex ft m p f = Some a -> P a) ->
+  forall fuel path m p w, mock_walk fuel sc fl ex ft path m p = Some w -> P w.
 Proof.
-  intros He Ha Ht Hf. induction fuel as [|fu IH]; intros m p w; cbn [mock_walk]; [discriminate|].
+  intros He Ha Ht Hf. induction fuel as [|fu IH]; intros path m p w; cbn [mock_walk]; [discriminate|].
   apply walk_fields_preserves; [exact He|exact Ha|].
   intros f a _ Hfa. eapply Hf; [|exact Hfa].
   intros n p' w' Hs. cbn beta in Hs.
   destruct (str_eqb n (s "google.protobuf.Timestamp")).
   - inversion Hs. apply Ht.
-  - destruct (find_message (all_messages sc) n) as [t|]; [|discriminate]. now apply (IH t p').
+  - destruct (find_message (all_messages sc) n) as [t|]; [|discriminate]. now apply (IH (m_name m :: path) t p').
 Qed.
 
-Lemma mock_walk_builds sc fl ex ft fuel m p w :
-  mock_walk fuel sc fl ex ft m p = Some w -> builds_ok w.
+Lemma mock_walk_builds sc fl ex ft fuel path m p w :
+  mock_walk fuel sc fl ex ft path m p = Some w -> builds_ok w.
 Proof.
   apply (mock_walk_preserves builds_ok).
   - apply builds_ok_empty.
   - apply builds_ok_app.
   - intros q H. cbn in H. discriminate.
-  - intros sub m' p' f a Hs. now apply field_walk_builds.
+  - intros onp sub m' p' f a Hs. now apply field_walk_builds.
 Qed.
 
 Lemma opt_all_in {A} (l : list (option A)) ws : opt_all l = Some ws -> forall x, In x ws -> In (Some x) l.
@@ -145,7 +148,7 @@ Proof.
   - unfold mock_checks. rewrite all_ok_flat_map. apply forallb_in. intros x Hx.
     destruct (rpc_walks_in _ _ _ _ Hw x Hx) as (fl & md & Hr).
     unfold rpc_walk in Hr. destruct (output_msg sc md); [|discriminate].
-    apply (mock_walk_builds _ _ _ _ _ _ _ _ Hr). now apply (flat_map_nil _ _ Hm).
+    apply (mock_walk_builds _ _ _ _ _ _ _ _ _ Hr). now apply (flat_map_nil _ _ Hm).
 Qed.
 
 (* ---- C20_examples_used ------------------------------------------------------------------------- *)
@@ -207,9 +210,9 @@ Proof.
   destruct mkd; exact H.
 Qed.
 
-Lemma field_walk_examples sub fl ex ft m p f a :
+Lemma field_walk_examples onp sub fl ex ft m p f a :
   (forall n p' w, sub n p' = Some w -> examples_ok ft w) ->
-  field_walk sub fl ex ft m p f = Some a -> examples_ok ft a.
+  field_walk onp sub fl ex ft m p f = Some a -> examples_ok ft a.
 Proof.
   intros Hsub. unfold field_walk.
   set (own := {| w_checks := []; w_leaves := []; w_present := []; w_tags := shape_tags f ++ example_tags fl ex ft m f |}).
@@ -229,23 +232,25 @@ Proof.
   destruct (f_card f) as [| | |kk] eqn:Ec.
   4: { destruct (f_kind f) eqn:Ek;
          try (intros H; inversion H; subst; clear H; apply Hown; intros _ _ l [<-|[]]; intros Hd; now cbn in Hd).
+       destruct (onp tn); [intros H; inversion H; intros _ l []|].
        destruct (sub tn _) as [w|] eqn:Es; [|discriminate]. intros H. inversion H. subst. clear H. exact (Hsubw _ _ _ _ _ false Es). }
   all: assert (Hm : is_map f = false) by (unfold is_map; now rewrite Ec).
   all: destruct (f_kind f) eqn:Ek; cbn [mock_kind].
   all: try solve [intros H; inversion H; subst; clear H; exact Hnone].
   all: try solve [intros H; inversion H; subst; clear H; exact (Hleaf _ _ _ eq_refl Hm)].
-  all: try solve [destruct (sub tn (join_path p (f_name f))) as [w|] eqn:Es; [|discriminate]; intros H; inversion H; subst; clear H;
+  all: try solve [destruct (onp tn); [intros H; inversion H; intros _ l []|];
+                  destruct (sub tn (join_path p (f_name f))) as [w|] eqn:Es; [|discriminate]; intros H; inversion H; subst; clear H;
                   exact (Hsubw _ _ _ _ _ _ Es)].
 Qed.
 
-Lemma mock_walk_examples sc fl ex ft fuel m p w :
-  mock_walk fuel sc fl ex ft m p = Some w -> examples_ok ft w.
+Lemma mock_walk_examples sc fl ex ft fuel path m p w :
+  mock_walk fuel sc fl ex ft path m p = Some w -> examples_ok ft w.
 Proof.
   apply (mock_walk_preserves (examples_ok ft)).
   - intros _ l [].
   - apply examples_ok_app.
   - intros q H. cbn in H. discriminate.
-  - intros sub m' p' f a Hs. now apply field_walk_examples.
+  - intros onp sub m' p' f a Hs. now apply field_walk_examples.
 Qed.
 
 Theorem examples_used_lemma : forall sc ex ft ws,
@@ -256,8 +261,77 @@ Proof.
   intros sc ex ft ws Hw Ht rpc w l Hin Hl Hd.
   destruct (rpc_walks_in _ _ _ _ Hw _ Hin) as (fl & md & Hr). cbn [snd] in Hr.
   unfold rpc_walk in Hr. destruct (output_msg sc md); [|discriminate].
-  apply (mock_walk_examples _ _ _ _ _ _ _ _ Hr); auto.
+  apply (mock_walk_examples _ _ _ _ _ _ _ _ _ Hr); auto.
   now apply (flat_map_nil _ _ Ht (rpc, w)).
+Qed.
+
+(* ---- the guarded walk terminates on every closed schema, recursive or not (1e0a1c9) ---------------- *)
+Definition msg_names (sc : schema) : list str := map m_name (all_messages sc).
+(* every message-typed field refers to Timestamp or to a message of the schema *)
+Definition closed (sc : schema) : Prop :=
+  forall m f n, In m (all_messages sc) -> In f (m_fields m) -> f_kind f = KMessage n ->
+    n = s "google.protobuf.Timestamp" \/ exists t, find_message (all_messages sc) n = Some t.
+
+Lemma find_message_some ms n t : find_message ms n = Some t -> In t ms /\ m_name t = n.
+Proof.
+  induction ms as [|a r IH]; cbn; [discriminate|]. destruct (str_eqb (m_name a) n) eqn:E.
+  - intros H. inversion H. subst. split; [now left|now apply str_eqb_eq].
+  - intros H. destruct (IH H). split; [now right|assumption].
+Qed.
+
+Lemma mem_str_false x l : mem_str x l = false -> ~ In x l.
+Proof.
+  unfold mem_str. intros H Hin. pose proof (existsb_false _ _ H x Hin) as E. cbn beta in E.
+  now rewrite str_eqb_refl in E.
+Qed.
+
+Lemma walk_fields_some step fs : (forall f, In f fs -> step f <> None) -> walk_fields step fs <> None.
+Proof.
+  induction fs as [|f r IH]; cbn; intros H; [discriminate|].
+  destruct (step f) eqn:E; [|exfalso; apply (H f); [now left|assumption]].
+  destruct (walk_fields step r) eqn:Er; [discriminate|]. exfalso. exact (IH (fun g Hg => H g (or_intror Hg)) eq_refl).
+Qed.
+
+Lemma field_walk_some onp sub fl ex ft m p f :
+  (forall n p', f_kind f = KMessage n -> onp n = false -> sub n p' <> None) ->
+  field_walk onp sub fl ex ft m p f <> None.
+Proof.
+  intros H. unfold field_walk.
+  destruct (f_card f); destruct (f_kind f) as [| | | | | | | | | | | | | | |en|tn] eqn:Ek; cbn [mock_kind]; try discriminate.
+  all: destruct (onp tn) eqn:Eo; [discriminate|].
+  all: destruct (sub tn _) as [w|] eqn:Es; [discriminate|exfalso; exact (H _ _ eq_refl Eo Es)].
+Qed.
+
+Theorem mock_walk_terminates sc fl ex ft : closed sc ->
+  forall fuel path m p, In m (all_messages sc) -> NoDup path -> incl path (msg_names sc) -> ~ In (m_name m) path ->
+    List.length (msg_names sc) < fuel + List.length path ->
+    mock_walk fuel sc fl ex ft path m p <> None.
+Proof.
+  intros Hc. induction fuel as [|fu IH]; intros path m p Hm Hnd Hincl Hnin Hlen.
+  - exfalso. assert (Hn : NoDup (m_name m :: path)) by now constructor.
+    assert (Hi : incl (m_name m :: path) (msg_names sc)).
+    { intros x [<-|Hx]; [unfold msg_names; now apply in_map|now apply Hincl]. }
+    pose proof (NoDup_incl_length Hn Hi) as Hle. cbn in *. lia.
+  - cbn [mock_walk]. apply walk_fields_some. intros f Hf. apply field_walk_some. intros n p' Hk Honp. cbn beta.
+    destruct (str_eqb n (s "google.protobuf.Timestamp")) eqn:Et; [discriminate|].
+    destruct (Hc m f n Hm Hf Hk) as [->|(t & Ht)]; [now rewrite str_eqb_refl in Et|].
+    rewrite Ht. destruct (find_message_some _ _ _ Ht) as [Hint Hname].
+    apply IH.
+    + assumption.
+    + now constructor.
+    + intros x [<-|Hx]; [unfold msg_names; now apply in_map|now apply Hincl].
+    + rewrite Hname. now apply mem_str_false.
+    + cbn [List.length]. lia.
+Qed.
+
+Theorem rpc_walk_terminates sc ex ft fl md m : closed sc -> output_msg sc md = Some m -> rpc_walk sc ex ft fl md <> None.
+Proof.
+  intros Hc Ho. unfold rpc_walk. rewrite Ho. unfold output_msg in Ho. destruct (find_message_some _ _ _ Ho) as [Hin _].
+  apply mock_walk_terminates; try assumption.
+  - constructor.
+  - intros x [].
+  - intros [].
+  - unfold walk_fuel, msg_names. rewrite map_length. cbn. lia.
 Qed.
 
 (* ---- witnesses ----------------------------------------------------------------------------------- *)
@@ -353,4 +427,32 @@ Definition ignored_case : mcase :=
 Lemma w_mock_ignored :
   case_defects ignored_case = Some [s "mock-examples-ignored-kind"] /\ case_builds ignored_case = Some true /\
   case_leaf ignored_case "u" = None.
+Proof. vm_compute. repeat split; reflexivity. Qed.
+
+(* recursive response types (possible since 1e0a1c9): self-recursive through a singular field, a
+   repeated field and a map value; mutually recursive *)
+Definition self_recursive_case : mcase :=
+  (mock_file [msg "Resp" [fld "v" KString Singular None []; fld "next" (M "Resp") Singular None []; fld "opt" (M "Resp") Optional None [];
+                          fld "kids" (M "Resp") Repeated None []; fld "by" (M "Resp") (MapOf KString) None []; fld "n" KInt64 Singular None []] []] "Resp",
+   exs [("Resp", "v", ["a"; "b"])], []).
+Definition case_present (c : mcase) : option (list str) :=
+  match case_walks c with Some [(_, w)] => Some (sort_strs (w_present w)) | _ => None end.
+Lemma self_recursive_facts :
+  case_defects self_recursive_case = Some [] /\ case_builds self_recursive_case = Some true /\
+  case_present self_recursive_case = Some [] /\
+  case_leaf self_recursive_case "v" = Some [s "a"; s "b"] /\ case_leaf self_recursive_case "n" = Some [s "42"] /\
+  case_leaf self_recursive_case "next.v" = None /\ case_leaf self_recursive_case "by[sample_key].v" = None.
+Proof. vm_compute. repeat split; reflexivity. Qed.
+
+Definition mutual_case : mcase :=
+  (mock_file [msg "Resp" [fld "b" (M "B") Singular None []; fld "title" KString Singular None []] [];
+              msg "B" [fld "a" (M "Resp") Singular None []; fld "n" KInt64 Singular None []; fld "m" (M "Resp") (MapOf KInt32) None [];
+                       fld "c" (M "C") Singular None []] [];
+              msg "C" [fld "b" (M "B") Singular None []; fld "ok" KBool Singular None []; fld "self" (M "C") (MapOf KString) None []] []] "Resp",
+   [], []).
+Lemma mutual_facts :
+  case_defects mutual_case = Some [] /\ case_builds mutual_case = Some true /\
+  case_present mutual_case = Some [s "b"; s "b.c"] /\
+  case_leaf mutual_case "b.n" = Some [s "42"] /\ case_leaf mutual_case "b.c.ok" = Some [s "true"] /\
+  case_leaf mutual_case "b.a.title" = None.
 Proof. vm_compute. repeat split; reflexivity. Qed.
